@@ -29,7 +29,7 @@ def nontrivial(case, result):
     # non-trivial: at least one One/Two/Three answer after an earlier selection moved a cursor,
     # or an actor sequence with a membership update followed by a selection
     if case.startswith("a "):
-        return case.count(" s ") >= 2
+        return case.count(" s ") + case.count(" w ") >= 2
     return sum(case.count(" %s " % l) for l in ("one", "two", "three")) >= 2
 
 
@@ -62,7 +62,11 @@ def run(ck):
              "histories <= 8; (2) the actor through start_node_selector/set_nodes/get_nodes: every ordered pair of the 27 "
              "layouts over DCs 0..2 x {absent,1,2 nodes} for two local positions with all levels queried before and after "
              "the update plus cache hits (1 458 sequences), random set/get sequences with nodes moving between DCs, and "
-             "real 2.1 s pauses for cache expiry. Every case runs on the extracted Coq model and on /repo and the answers "
+             "real 2.1 s pauses for cache expiry; (3) the membership reaching the selector as it does in a running node: "
+             "snapshots (1..3 DCs x 1..4 nodes, every local position, then one node more, then back) handed to the real "
+             "watch_membership_changes task, all levels queried after each - the model is given the membership itself, so a "
+             "watcher that hands the selector anything but every member (the local node included) under its data centre "
+             "diverges and fails the count clauses. Every case runs on the extracted Coq model and on /repo and the answers "
              "(node lists in order, NotEnoughNodes{live,required}) are compared; the random choose_multiple result is "
              "recovered by the model driver by search over all arrangements the model allows (existential refinement). "
              "non-trivial = history with >= 2 One/Two/Three selections (cursor-dependent) or actor sequence with >= 2 "
@@ -71,8 +75,8 @@ def run(ck):
         assumptions=[
             "addresses of a layout are pairwise different (theorem hypothesis NoDup (lnodes l); the harness generates only such)",
             "count clauses (>= required, exactly n, error only when too few): the local node is listed under its own data "
-            "centre and total_nodes is the member count - true in the actor, which derives the layout from a membership "
-            "containing the node itself; the which-nodes clauses need neither",
+            "centre and total_nodes is the member count - the layout the membership watcher builds (checked by the "
+            "watcher cases of the executor); the which-nodes clauses need neither",
             "required(level): n for One/Two/Three; floor(total/2) for Quorum; floor(|local DC|/2) for LocalQuorum; all other "
             "nodes for All; for EachQuorum floor(|DC|/2) in the local DC plus min(|DC|, floor(|DC|/2)+1) in every other DC "
             "(the code's own definitions; the local node counts as the +1)",
